@@ -6,8 +6,10 @@ package stun
 import (
 	"errors"
 	"net"
+	"net/netip"
 	"net/url"
 	"strconv"
+	"strings"
 )
 
 var (
@@ -170,6 +172,12 @@ func ParseURI(raw string) (*URI, error) { //nolint:gocognit,cyclop
 
 	if uri.Host == "" {
 		return nil, ErrHost
+	}
+	if strings.HasPrefix(rawParts.Opaque, "[") {
+		// RFC 7064/7065: only an IP literal may be bracketed.
+		if _, ipErr := netip.ParseAddr(uri.Host); ipErr != nil {
+			return nil, ErrHost
+		}
 	}
 
 	if uri.Port, err = strconv.Atoi(rawPort); err != nil || uri.Port < 0 || uri.Port > 65535 {
